@@ -70,7 +70,7 @@ typedef struct { sslSessionId_t *sid; int lt; int ver; uint16_t suite; int cauth
 typedef struct {
     pthread_mutex_t mu; int valid; int lt, ver; uint16_t suite; uint32 cipherId;
     unsigned char id[SSL_MAX_SESSION_ID_SIZE]; int idLen; unsigned char ms[SSL_HS_MASTER_SIZE];
-    unsigned char ticket[512]; int ticketLen;
+    unsigned char ticket[512]; int ticketLen; uint32 ticketHint; uint16 ticketState;
 } board_t;
 static board_t *g_board;   /* [thread][LT_N] */
 
@@ -183,7 +183,7 @@ static int ep_take(worker_t *w, ep_t *e, unsigned char **out)
 }
 
 typedef struct { int round; int corrupt_round; int stop_round; int tampered; uint64_t sid_at_tamper; int resumed_at_tamper;
-                 const unsigned char *cred; int credlen; int on_wire; } pumpctl_t;
+                 const unsigned char *cred, *cred2; int credlen, cred2len; int on_wire; /* bit0: cred, bit1: cred2 in the ClientHello */ } pumpctl_t;
 
 /* move flights until both sides are quiet.  Even rounds: client sends.  Returns 1 if stopped by stop_round. */
 static int pump(worker_t *w, ep_t *c, ep_t *s, pumpctl_t *pc)
@@ -196,7 +196,8 @@ static int pump(worker_t *w, ep_t *c, ep_t *s, pumpctl_t *pc)
         unsigned char *b; int n = ep_take(w, snd, &b);
         if (n > 0) {
             idle = 0;
-            if (r == 0 && pc->cred && pc->credlen > 0 && n >= pc->credlen) pc->on_wire = memmem(b, n, pc->cred, pc->credlen) != NULL;
+            if (r == 0 && pc->cred && pc->credlen > 0 && n >= pc->credlen && memmem(b, n, pc->cred, pc->credlen)) pc->on_wire |= 1;
+            if (r == 0 && pc->cred2 && pc->cred2len > 0 && n >= pc->cred2len && memmem(b, n, pc->cred2, pc->cred2len)) pc->on_wire |= 2;
             if (r == pc->stop_round) { free(b); pc->round++; return 1; }
             if (r == pc->corrupt_round && !pc->tampered) {
                 /* damage the last record of the client's flight: its MAC/tag no longer verifies */
@@ -259,13 +260,15 @@ static void op_handshake(worker_t *w, lc_t *lc, int mode)
     pumpctl_t pc; memset(&pc, 0, sizeof pc); pc.corrupt_round = pc.stop_round = -1;
     /* the credential bytes the client holds; looked for in its ClientHello (a client that does not put its credential
        on the wire - e.g. after an aborted handshake left its ticket state machine mid-way - cannot be resumed) */
-    unsigned char credbuf[1024];
+    unsigned char credbuf[1024], cred2buf[SSL_MAX_SESSION_ID_SIZE];
     {
         const sslSessionId_t *sd = lc->sid; const unsigned char *p = NULL; int n = 0;
         if (lc->lt == LT_PSK13) { if (sd->psk && sd->psk->pskId) { p = sd->psk->pskId; n = sd->psk->pskIdLen; } }
         else if (lc->lt == LT_TK12) { if (sd->sessionTicket && sd->cipherId) { p = sd->sessionTicket; n = sd->sessionTicketLen; } }
         else if (sd->cipherId && sd->idLen > 0) { p = sd->id; n = sd->idLen; }
         if (p && n > 0 && n <= (int) sizeof credbuf) { memcpy(credbuf, p, n); pc.cred = credbuf; pc.credlen = n; }
+        /* a ticket client also holds a session id when a server without ticket keys answered it */
+        if (lc->lt == LT_TK12 && sd->cipherId && sd->idLen > 0) { memcpy(cred2buf, sd->id, sd->idLen); pc.cred2 = cred2buf; pc.cred2len = sd->idLen; }
     }
     if (mode == M_ALERT_HS) pc.corrupt_round = 2;
     if (mode == M_ABANDON) { pc.stop_round = 1 + (int) vf_below(&w->rng, 3); o->sub = pc.stop_round; }
@@ -390,7 +393,7 @@ static void publish(worker_t *w, lc_t *lc)
     b->lt = lc->lt; b->ver = lc->ver; b->suite = lc->suite; b->cipherId = sd->cipherId;
     memcpy(b->id, sd->id, sizeof b->id); b->idLen = sd->idLen; memcpy(b->ms, sd->masterSecret, sizeof b->ms);
     b->ticketLen = 0;
-    if (lc->lt == LT_TK12) { memcpy(b->ticket, sd->sessionTicket, sd->sessionTicketLen); b->ticketLen = sd->sessionTicketLen; }
+    if (lc->lt == LT_TK12) { memcpy(b->ticket, sd->sessionTicket, sd->sessionTicketLen); b->ticketLen = sd->sessionTicketLen; b->ticketHint = sd->sessionTicketLifetimeHint; b->ticketState = sd->sessionTicketState; }
     b->valid = 1;
     pthread_mutex_unlock(&b->mu);
 }
@@ -413,7 +416,7 @@ static void op_borrow(worker_t *w)
         memcpy(sd->masterSecret, b->ms, sizeof sd->masterSecret);
         if (b->ticketLen > 0) {
             sd->sessionTicket = psMalloc(sd->pool, b->ticketLen);
-            if (sd->sessionTicket) { memcpy(sd->sessionTicket, b->ticket, b->ticketLen); sd->sessionTicketLen = b->ticketLen; }
+            if (sd->sessionTicket) { memcpy(sd->sessionTicket, b->ticket, b->ticketLen); sd->sessionTicketLen = b->ticketLen; sd->sessionTicketLifetimeHint = b->ticketHint; sd->sessionTicketState = b->ticketState; }
         }
         ok = 1;
     }
